@@ -7,8 +7,6 @@ package pypi
 
 import "deps.dev/util/resolve"
 
-var c08N = [...]string{"0", "1", "2", "3", "4"}
-
 func c08Name(tag string) resolve.PackageKey {
 	b := vByte(tag)
 	vAssume(vAnd('a' <= b, b <= 'e'))
